@@ -106,9 +106,14 @@ func macOf(m int) net.HardwareAddr { return net.HardwareAddr{0x02, 0xdd, 0, 0, 0
 func ip4Of(k int) netip.Addr       { return netip.AddrFrom4([4]byte{192, 168, 0, byte(100 + k)}) }
 
 func arpFrame(op uint16, srcMAC []byte, sip netip.Addr, tmac []byte, tip netip.Addr) []byte {
+	return arpFrameVia(srcMAC, op, srcMAC, sip, tmac, tip)
+}
+
+// arpFrameVia: Ethernet source etherSrc (a bridge relaying the packet), ARP sender hardware address srcMAC.
+func arpFrameVia(etherSrc []byte, op uint16, srcMAC []byte, sip netip.Addr, tmac []byte, tip netip.Addr) []byte {
 	b := make([]byte, 14+28)
 	copy(b[0:6], []byte{0xff, 0xff, 0xff, 0xff, 0xff, 0xff})
-	copy(b[6:12], srcMAC)
+	copy(b[6:12], etherSrc)
 	b[12], b[13] = 0x08, 0x06
 	a := b[14:]
 	binary.BigEndian.PutUint16(a[0:2], 1)
@@ -135,11 +140,20 @@ type apiOp struct {
 	callIdx, retIdx int
 	res             string
 	huntLenAfter    int
+	huntAfter       string // MACs in the hunt list after the call (sorted)
+	esrc            int    // request: index of the Ethernet source MAC
+	ipk             int    // StopHunt: index of the IPv4 passed in addr.IP
 }
 
 const tail = 7800 * time.Millisecond
 
-// scn steps: s<m>:<k|x>  x<m>  c  q<m>:<0|1>  b<m>:<-|a|d>:<l|o>  o<m>  w<ms>
+// scn steps: s<m>:<k|x>  x<m>[:<k>]  c  q<m>:<0|1>[:<e>]  b<m>:<-|a|d>:<l|o>  o<m>  w<ms>
+//
+//	s<m>:<k>    StartHunt(MAC m, IPv4 192.168.0.(100+k)); x = an IPv6 address (invalid)
+//	x<m>:<k>    StopHunt(MAC m, IPv4 192.168.0.(100+k)) – k defaults to m; the address may differ from the one
+//	            StartHunt used (host changed address) or be the address of another hunted MAC
+//	q<m>:<r>:<e> ARP request whose sender hardware address is MAC m, asking for the router (r=1) or another
+//	            address, received in a frame whose Ethernet source is MAC e (default m; e != m: relayed by a bridge)
 func runTrace(scn string) (evs []event, frames []frameRec, ops []*apiOp) {
 	l := &tlog{t0: time.Now()}
 	s, err := packet.Config{Conn: &lconn{log: l, closed: make(chan struct{})}, NICInfo: sess.DefaultNIC()}.NewSession("")
@@ -192,16 +206,20 @@ func runTrace(scn string) (evs []event, frames []frameRec, ops []*apiOp) {
 			if err != nil {
 				o.res = "e"
 			}
-			o.huntLenAfter = len(h.VerifHuntList())
+			o.huntLenAfter, o.huntAfter = huntDump(h)
 			o.retIdx, o.retAt = l.add(fmt.Sprintf("Sr%d:%s", k, o.res))
 			ops = append(ops, o)
 		case 'x':
 			n++
-			m, _ := strconv.Atoi(arg)
-			o := &apiOp{kind: 'X', m: m}
-			o.callIdx, o.callAt = l.add(fmt.Sprintf("Xc%d:%s", k, hx(macOf(m))))
-			h.StopHunt(packet.Addr{MAC: macOf(m), IP: ip4Of(m)})
-			o.huntLenAfter = len(h.VerifHuntList())
+			m, _ := strconv.Atoi(f[0])
+			o := &apiOp{kind: 'X', m: m, ipk: m}
+			if len(f) == 2 {
+				o.ipk, _ = strconv.Atoi(f[1])
+			}
+			ip := ip4Of(o.ipk).As4()
+			o.callIdx, o.callAt = l.add(fmt.Sprintf("Xc%d:%s:%s", k, hx(macOf(m)), hx(ip[:])))
+			h.StopHunt(packet.Addr{MAC: macOf(m), IP: ip4Of(o.ipk)})
+			o.huntLenAfter, o.huntAfter = huntDump(h)
 			o.retIdx, o.retAt = l.add(fmt.Sprintf("Xr%d", k))
 			ops = append(ops, o)
 		case 'c':
@@ -212,18 +230,21 @@ func runTrace(scn string) (evs []event, frames []frameRec, ops []*apiOp) {
 			o.retIdx, o.retAt = l.add(fmt.Sprintf("Cr%d", k))
 			ops = append(ops, o)
 		case 'q':
-			if len(f) != 2 {
+			if len(f) != 2 && len(f) != 3 {
 				continue
 			}
 			n++
 			m, _ := strconv.Atoi(f[0])
-			o := &apiOp{kind: 'Q', m: m, toRouter: f[1] == "1"}
+			o := &apiOp{kind: 'Q', m: m, toRouter: f[1] == "1", esrc: m}
+			if len(f) == 3 {
+				o.esrc, _ = strconv.Atoi(f[2])
+			}
 			tip := netip.AddrFrom4([4]byte{192, 168, 0, 200})
 			if o.toRouter {
 				tip = sess.RouterIP4
 			}
-			o.callIdx, o.callAt = l.add(fmt.Sprintf("Qc%d:%s:%s", k, hx(macOf(m)), f[1]))
-			process(arpFrame(1, macOf(m), ip4Of(m), make([]byte, 6), tip))
+			o.callIdx, o.callAt = l.add(fmt.Sprintf("Qc%d:%s:%s:%s", k, hx(macOf(o.esrc)), hx(macOf(m)), f[1]))
+			process(arpFrameVia(macOf(o.esrc), 1, macOf(m), ip4Of(m), make([]byte, 6), tip))
 			o.retIdx, o.retAt = l.add(fmt.Sprintf("Qr%d", k))
 			ops = append(ops, o)
 		case 'b':
@@ -284,6 +305,26 @@ func runTrace(scn string) (evs []event, frames []frameRec, ops []*apiOp) {
 	return
 }
 
+// huntDump: size and MACs (sorted) of the hunt list – one observation under the handler mutex.
+func huntDump(h *arp_spoofer.Handler) (int, string) {
+	l := h.VerifHuntList()
+	ms := make([]string, len(l))
+	for i, a := range l {
+		ms[i] = hx(a.MAC)
+	}
+	return len(l), strings.Join(ms, ",")
+}
+
+func setString(hunted map[int]bool) string {
+	ms := []string{}
+	for m := 0; m < 256; m++ {
+		if hunted[m] {
+			ms = append(ms, hx(macOf(m)))
+		}
+	}
+	return strings.Join(ms, ",")
+}
+
 func traceOracle(evs []event, frames []frameRec, ops []*apiOp) (string, string) {
 	const cycle = 6 * time.Second
 	const slack = 1500 * time.Millisecond // generous: scheduling delays on a loaded machine must not raise an alarm
@@ -304,10 +345,16 @@ func traceOracle(evs []event, frames []frameRec, ops []*apiOp) (string, string) 
 			if o.huntLenAfter != len(hunted) {
 				return fmt.Sprintf("hunt list holds %d entries after StartHunt(mac %d); %d distinct MACs are hunted", o.huntLenAfter, o.m, len(hunted)), ""
 			}
+			if o.huntAfter != setString(hunted) {
+				return fmt.Sprintf("hunt list holds [%s] after StartHunt(mac %d); hunted MACs are [%s]", o.huntAfter, o.m, setString(hunted)), ""
+			}
 		case 'X':
 			delete(hunted, o.m)
 			if o.huntLenAfter != len(hunted) {
-				return fmt.Sprintf("hunt list holds %d entries after StopHunt(mac %d); %d distinct MACs are hunted", o.huntLenAfter, o.m, len(hunted)), ""
+				return fmt.Sprintf("hunt list holds %d entries after StopHunt(mac %d, ip index %d); %d distinct MACs are hunted", o.huntLenAfter, o.m, o.ipk, len(hunted)), ""
+			}
+			if o.huntAfter != setString(hunted) {
+				return fmt.Sprintf("hunt list holds [%s] after StopHunt(mac %d, ip index %d); StopHunt removes exactly that MAC: [%s]", o.huntAfter, o.m, o.ipk, setString(hunted)), ""
 			}
 		}
 	}
@@ -555,9 +602,17 @@ func genScenario(c *core.Ctx) string {
 			ipk := []string{strconv.Itoa(m), strconv.Itoa(m), "0", "x"}[r.Intn(4)]
 			st = append(st, fmt.Sprintf("s%d:%s", m, ipk))
 		case x < 5:
-			st = append(st, fmt.Sprintf("x%d", m))
+			if r.Intn(5) < 2 { // the caller's idea of the host's address differs from the one StartHunt saw
+				st = append(st, fmt.Sprintf("x%d:%d", m, []int{r.Intn(nm), r.Intn(nm), 5}[r.Intn(3)]))
+			} else {
+				st = append(st, fmt.Sprintf("x%d", m))
+			}
 		case x < 7:
-			st = append(st, fmt.Sprintf("q%d:%d", r.Intn(nm+1), r.Intn(2)))
+			if r.Intn(5) < 2 { // relayed by a bridge: Ethernet source differs from the ARP sender
+				st = append(st, fmt.Sprintf("q%d:%d:%d", r.Intn(nm+1), 1-r.Intn(4)/3, r.Intn(nm+1)))
+			} else {
+				st = append(st, fmt.Sprintf("q%d:%d", r.Intn(nm+1), r.Intn(2)))
+			}
 		case x < 8:
 			st = append(st, fmt.Sprintf("b%d:%c:%c", r.Intn(nm+1), "-ad"[r.Intn(3)], "llo"[r.Intn(3)]))
 		case x < 9:
@@ -573,12 +628,17 @@ func genScenario(c *core.Ctx) string {
 
 // Gen is the C13 correspondence run.
 func Gen(c *core.Ctx) {
-	c.Res.Rule = "arp.trace: real-time scenarios (StartHunt incl. invalid addresses and MACs sharing one IPv4, StopHunt, Close over up to 3 MACs, received requests for the router / another address from hunted and non-hunted MACs, probes with no / equal / different DHCP offer for in-LAN and foreign addresses, replies and announcements, pauses up to 6.3 s, 6.6 s tail) run in parallel, one handler each; the ordered log must be accepted by the Lean ARP hunt machine (6 s ticker as a lower bound between forged frames of one loop); the oracle checks every forged / restoring / reject frame, API results, list size, the undo sequence after StopHunt within one cycle, Close, and the period"
+	c.Res.Rule = "arp.trace: real-time scenarios (StartHunt incl. invalid addresses and MACs sharing one IPv4, StopHunt incl. with another address than StartHunt used or the address of another hunted MAC, Close over up to 3 MACs, received requests for the router / another address from hunted and non-hunted ARP senders incl. frames relayed by a bridge (Ethernet source differs from the ARP sender, both directions), hunt-list content dumped after every call, probes with no / equal / different DHCP offer for in-LAN and foreign addresses, replies and announcements, pauses up to 6.3 s, 6.6 s tail) run in parallel, one handler each; the ordered log must be accepted by the Lean ARP hunt machine (6 s ticker as a lower bound between forged frames of one loop); the oracle checks every forged / restoring / reject frame, API results, list size, the undo sequence after StopHunt within one cycle, Close, and the period"
 	lines := c.CorpusLines()
 	fixed := []string{
 		"s0:0,w300,x0", "s0:0,s0:0,s0:1,w6300,x0", "s0:0,s1:0,w300,x0,w300", "s0:0,s1:1,q0:1,q1:0,q2:1,x1,q1:1",
 		"s0:x,q0:1,b0:d:l,b1:d:o,b2:a:l,b0:-:l", "s0:0,w200,c", "s0:0,w6300,w3000,x0", "s0:0,x0,w50,s0:0,w6300,x0",
 		"s0:0,s1:1,s2:2,w500,x1,o1,o2,w6300,c",
+		// requests relayed by a bridge: hunted Ethernet source / non-hunted ARP sender and the reverse
+		"s0:0,w100,q1:1:0,q0:1:1,q1:0:0,q0:0:1,w200", "s0:0,s1:1,w200,q2:1:1,q1:1:2,q0:1:0,q2:1:2",
+		// StopHunt with another address than StartHunt used; with the address of another hunted MAC; shared IPv4
+		"s0:0,w200,x0:5,w300,q0:1", "s0:3,w200,x0,w300,q0:1", "s0:0,s1:1,w200,x1:0,w300,q0:1,q1:1",
+		"s0:0,s1:0,s2:2,w200,x1:0,q0:1,q1:1,w300,x0:2,q2:1",
 	}
 	ns := c.Scale(28, 1200)
 	scns := []string{}
